@@ -20,6 +20,21 @@ CHECKS = {
              text="TLC derives the allowed orientation of each polarised cell from the row under its bottom edge with the generator-based algebra and checks it on every legalize/placeDetailed callback and return; the polarity table and opposite-row function of the code are compared exhaustively with the algebra.", ref="5/C04"),
  "C05": dict(cat="model_checking", tech="TLA+ HPWL through the orientation algebra + TLC trace validation of callback sequences",
              text="TLC recomputes the wirelength of every exposed state and checks monotonicity over the Detailed callbacks and against the legalized placement; run once without polarities (no known finding can match) and once with.", ref="5/C05"),
+ "C09": dict(cat="model_checking", tech="TLA+ orientation algebra + IncrHpwl spec: TLC-enumerated cases and update histories replayed into Circuit/IncrNetModel; TLC trace validation of random circuits",
+             text="Exhaustive within bounds: every orientation x size x pin offset (the algebra is generated from two generators, independent of the code's case table) and every update history of the implementation-shaped IncrHpwl model (whose invariant value = from-scratch TLC checks) is replayed into the real objects; random circuits and histories are recorded and their wirelengths recomputed by TLC.",
+             ref="5/C09", engine="tlc-edges + replay; record + tlc-trace"),
+ "C12": dict(cat="model_checking", tech="TLA+ transcription of the cascading descent (RowLegalizer.tla) refining a brute-force contract; all histories replayed into RowLegalizer; TLC trace validation at large coordinates",
+             text="TLC checks on the complete scope that the transcription keeps order, containment, optimality (brute force over all ordered placements) and exact cost sums, and that a query leaves the queue unchanged; every history is replayed into a real RowLegalizer (contract decides, step-level equality with the transcription is reported as impl_conformance); random long histories at coordinates up to 2^22 are validated by TLC with a product-free optimality criterion that is itself checked against brute force.",
+             ref="5/C12", engine="tlc-design; tlc-edges + replay; record + tlc-trace"),
+ "C13": dict(cat="model_checking", tech="TLA+ transportation contract (feasible + no negative residual cycle, checked against brute force); TLC-enumerated tiny problems and random problems solved by the real code, plans validated by TLC",
+             text="All tiny problems are enumerated by TLC, solved by TransportationProblem::solve and the returned plans validated by TLC (feasibility, optimality certificate, arg-max assignment); random problems up to 16 sinks likewise.",
+             ref="5/C13", engine="tlc-design; record + tlc-trace"),
+ "C14": dict(cat="model_checking", tech="TLA+ contract instance with cost |u-v| + rounding rule; TLC-enumerated tiny instances executed under AddressSanitizer, results validated by TLC",
+             text="Every tiny instance (zero supplies/demands, duplicates, unsorted) is executed by Transportation1d::solve/assign under ASan in forked children; TLC validates plan optimality, the rounding rule and the result length; a sanitizer report is an event outside the contract's alphabet.",
+             ref="5/C14", engine="tlc-design; record + tlc-trace"),
+ "C15": dict(cat="model_checking", tech="TLA+ FreeSegments (endpoint-based, checked equal to column-based by TLC) enumerated exhaustively and replayed into Row::freespace / Circuit::computeRows; random traces validated",
+             text="Exhaustive on a grid of before/at/inside/at/after coordinates around a row with every flag combination; random large-coordinate cases validated endpoint-wise.",
+             ref="5/C15", engine="tlc-edges + replay; record + tlc-trace"),
  "C11": dict(cat="model_checking", tech="TLA+ contract (legal single-row input => stutter) + TLC trace validation of legalize;legalize",
              text="For every recorded pair of successive legalize calls TLC checks the antecedent (input Legal, all movable cells row-high) and that positions are unchanged.", ref="5/C11"),
 }
